@@ -125,6 +125,11 @@ def run_case(case, ctx):
                                                       'SPDX-License-Identifier = ["ISC OR Zlib", "Zlib OR ISC", "(Zlib OR ISC)"]\n')
         (root / "subprojects" / "libfoo").mkdir(parents=True, exist_ok=True)
         (root / "subprojects" / "libfoo" / "foo.c").write_text("int foo;\n")
+        if mode == "toml":
+            # a REUSE.toml that only counts when Meson subprojects are included (every third tree is run with that option, in
+            # every run alike: what the option brings in must not depend on who evaluates a file)
+            (root / "subprojects" / "libfoo" / "REUSE.toml").write_text('version = 1\n[[annotations]]\npath = "foo.c"\nprecedence = "aggregate"\n'
+                                                                        'SPDX-FileCopyrightText = "2003 Sub Project"\nSPDX-License-Identifier = "0BSD"\n')
         (root / "deep" / "er" / "still").mkdir(parents=True)
         (root / "deep" / "REUSE.toml").write_text('version = 1\n[[annotations]]\npath = "**"\nprecedence = "closest"\nSPDX-FileCopyrightText = "2001 Deep"\n') if mode == "toml" else None
         (root / "deep" / "er" / "x.py").write_text("print(1)\n")
@@ -187,7 +192,7 @@ def run_case(case, ctx):
 
         def one_run(cfg, cmd):
             cwd = {"root": str(root), "sub": str(root / sub), "parent": str(base), "slash": "/", "meson": str(root / "subprojects" / "libfoo")}[cfg["cwd"]]
-            gl = spelling(cfg["root"], cwd)
+            gl = spelling(cfg["root"], cwd) + (["--include-meson-subprojects"] if k % 3 == 0 else [])
             if cfg["workers"] == 0:
                 gl = ["--no-multiprocessing"] + gl
             perturb = []
